@@ -3,7 +3,7 @@
 (* Level B (implementation-shaped) model of hgraph's SIMULATION run loop   *)
 (* together with the ROOT graph's schedule table, checked against the      *)
 (* sentences of C02 (level A, stated below as invariants over the truth    *)
-(* variables ev / direct / wd / now / last / start / end only).            *)
+(* variables ev / direct / wd / now / start / end only).                   *)
 (*                                                                         *)
 (* Code modelled (one operator / action per critical section):             *)
 (*   executor.cpp  run_storage (loop head, the two end-time tests,         *)
@@ -54,7 +54,20 @@
 (* time), pass.                                                            *)
 (*                                                                         *)
 (* Fault = "none" is the code as it is.  Every other value is one          *)
-(* realistic slip; TLC must reject each (cfg/SimExecutor.<fault>*.cfg).    *)
+(* realistic slip; TLC must reject each (cfg/SimExecutor.<fault>*.cfg):    *)
+(*   nolower      schedule_node keeps a later slot: `when < scheduled` gone *)
+(*   overwrite    schedule_node overwrites the cache: `when < next` gone   *)
+(*   cachege      schedule_node updates the cache with `when >= current`   *)
+(*   skipplus1    the cursor's fold skips a slot exactly one step ahead    *)
+(*   seedgt       the cache is seeded after start from slots `> start`     *)
+(*   nocachereset the per-cycle reset of the cache is dropped              *)
+(*   noreset      the cursor is not reset when a cycle completes           *)
+(*   norearm      advance() consumes the fired event but does not re-arm   *)
+(*   norearm2     no re-arm after an evaluation caused by an input tick    *)
+(*   fbnow        the feedback sink schedules its source for now           *)
+(*   maxadvance   advance_simulation takes max(next, end)                  *)
+(*   endinclusive both end-time tests use `>`: a cycle AT the end time     *)
+(*   pushinvert   advance_simulation's push test inverted: now+1 always    *)
 (***************************************************************************)
 EXTENDS Integers, Sequences, FiniteSets, TLC, Json
 
@@ -83,7 +96,7 @@ Sorted(S) == LET RECURSIVE F(_)
              IN F(S)
 
 VARIABLES start, end, prog,            \* the scenario: chosen once
-          phase,                       \* "config" | "bind" | "start" | "idle" | "cycle" | "tail" (of a cycle) | "done"
+          phase,                       \* "config" | "param" | "bind" | "start" | "idle" | "cycle" | "tail" (of a cycle) | "done"
           sn,                          \* node being configured / started
           now,                         \* evaluation_time (of the executor and of the root graph)
           first,                       \* no cycle has run yet
@@ -124,22 +137,31 @@ Typed == "free" \notin Kinds
 NSrc(pr, upto) == Cardinality({m \in 1..upto : pr[m].kind \in Sources})
 ProdRank(pr, x, nsrc) == IF pr[x].inp = 0 THEN 2 * nsrc + 1 ELSE 2 * pr[x].inp
 
-ProgChoices(n) ==
+\* the parameters of node n if it is of kind k: the producer (consumers come out of Kahn's queue in the order in which
+\* their producers do), the delay / period, the number of ticks of a timer, whether a feedback starts with a value
+ParamsOf(n, k) ==
     LET outs == {m \in 1..(n - 1) : HasOutput(prog[m].kind)}
-        allsrc == \A m \in 1..(n - 1) : prog[m].kind \in Sources
         cons == {m \in 1..(n - 1) : prog[m].kind \notin Sources}
         nsrc == NSrc(prog, n - 1)
         okrank(r) == cons = {} \/ ProdRank(prog, Max(cons), nsrc) <= (IF r.inp = 0 THEN 2 * nsrc + 1 ELSE 2 * r.inp)
-        nofb == \A m \in 1..(n - 1) : prog[m].kind # "fbsrc"
-    IN  (IF "srcall" \in Kinds /\ allsrc THEN {Rec("srcall", 0, 0, 0)} ELSE {})
-        \cup (IF "srcchain" \in Kinds /\ allsrc THEN {Rec("srcchain", 0, 0, 0)} ELSE {})
-        \cup (IF "timer" \in Kinds /\ allsrc THEN {Rec("timer", 0, d, c) : d \in Deltas, c \in 1..3} ELSE {})
-        \cup (IF "fbsrc" \in Kinds /\ allsrc /\ nofb THEN {Rec("fbsrc", 0, 0, c) : c \in {0, 1}} ELSE {})
-        \cup {r \in (IF "sched" \in Kinds THEN {Rec("sched", i, 0, 0) : i \in outs \cup {0}} ELSE {})
-                   \cup (IF "pass" \in Kinds THEN {Rec("pass", i, 0, 0) : i \in outs} ELSE {})
-                   \cup (IF "echo" \in Kinds THEN {Rec("echo", i, d, 0) : i \in outs, d \in Deltas} ELSE {})
-                   \cup (IF "delay" \in Kinds THEN {Rec("delay", i, d, 0) : i \in outs, d \in Deltas} ELSE {}) : okrank(r)}
+    IN  CASE k = "timer" -> {Rec(k, 0, d, c) : d \in Deltas, c \in 1..3}
+          [] k = "fbsrc" -> {Rec(k, 0, 0, c) : c \in {0, 1}}
+          [] k = "sched" -> {r \in {Rec(k, i, 0, 0) : i \in outs \cup {0}} : okrank(r)}
+          [] k = "pass"  -> {r \in {Rec(k, i, 0, 0) : i \in outs} : okrank(r)}
+          [] k \in {"echo", "delay"} -> {r \in {Rec(k, i, d, 0) : i \in outs, d \in Deltas} : okrank(r)}
+          [] OTHER -> {Rec(k, 0, 0, 0)}
+ParamChoices(n) == ParamsOf(n, prog[n].kind)
 
+\* the kinds node n may take, given the nodes before it: sources first (that is how Wiring::finish ranks them), at most one
+\* feedback, a consumer needs a producer with an output (a `sched` that is not the first node may do without)
+KindChoices(n) ==
+    LET outs == {m \in 1..(n - 1) : HasOutput(prog[m].kind)}
+        allsrc == \A m \in 1..(n - 1) : prog[m].kind \in Sources
+        nofb == \A m \in 1..(n - 1) : prog[m].kind # "fbsrc"
+    IN  {k \in Kinds : \/ k \in {"srcall", "srcchain", "timer"} /\ allsrc
+                       \/ k = "fbsrc" /\ allsrc /\ nofb
+                       \/ k = "sched" /\ n > 1
+                       \/ k \in {"pass", "echo", "delay"} /\ ParamsOf(n, k) # {}}
 ----------------------------------------------------------------------------
 \* graph.cpp schedule_node_impl; st = [slot, nxt, err]
 SchedLocal(st, n, when) ==
@@ -182,11 +204,20 @@ Init == /\ start \in Starts /\ end \in Ends /\ end > start
         /\ budget = Budget /\ tcount = [n \in Nodes |-> 0]
         /\ script = [n \in Nodes |-> <<>>] /\ cycles = <<>>
 
+\* the scenario is chosen node by node: first the kind, then its parameters (two steps, so that the simulator's uniform choice
+\* among successors is a uniform choice among kinds)
 Configure ==
     /\ phase = "config"
-    /\ \E r \in ProgChoices(sn) : /\ prog' = [prog EXCEPT ![sn] = r]
-                                   /\ tcount' = [tcount EXCEPT ![sn] = IF r.kind = "timer" THEN r.cnt ELSE 0]
-    /\ IF sn = N THEN phase' = "bind" /\ sn' = 1 ELSE phase' = phase /\ sn' = sn + 1
+    /\ \E k \in KindChoices(sn) : prog' = [prog EXCEPT ![sn] = Rec(k, 0, 0, 0)]
+    /\ phase' = "param"
+    /\ UNCHANGED <<start, end, sn, now, first, slot, nxt, cursor, err, ev, direct, wd, must, fbq, ran, mono, asked, twice, lostn,
+                   stopReq, budget, tcount, script, cycles>>
+Parametrize ==
+    /\ phase = "param"
+    /\ ParamChoices(sn) # {}
+    /\ \E r \in ParamChoices(sn) : /\ prog' = [prog EXCEPT ![sn] = r]
+                                    /\ tcount' = [tcount EXCEPT ![sn] = IF r.kind = "timer" THEN r.cnt ELSE 0]
+    /\ IF sn = N THEN phase' = "bind" /\ sn' = 1 ELSE phase' = "config" /\ sn' = sn + 1
     /\ UNCHANGED <<start, end, now, first, slot, nxt, cursor, err, ev, direct, wd, must, fbq, ran, mono, asked, twice, lostn,
                    stopReq, budget, script, cycles>>
 
@@ -321,7 +352,8 @@ EvalNode ==
          /\ LET schedNow == ev[n] # {} /\ Min(ev[n]) = T                     \* sampled before user code runs
                 \* user code: a tag replacement erases the old event first; neither it nor un_schedule() rewrites the slot
                 x0 == NSchedAll([ev |-> ev[n] \ c.wdr, st |-> Tables], n, c.req, TRUE)
-                gone == IF c.wda /\ {t \in x0.ev : t > T} # {} THEN {Min({t \in x0.ev : t > T})} ELSE {}
+                \* un_schedule() erases the earliest event - the one that is firing, if one is
+                gone == IF c.wda /\ x0.ev # {} THEN {Min(x0.ev)} ELSE {}
                 x1 == [ev |-> x0.ev \ gone, st |-> x0.st]
                 \* out.set(...) notifies the consumers: scheduled for max(T, graph time) = T
                 s2 == SchedAll(x1.st, c.same, T)
@@ -369,7 +401,7 @@ EndCycle ==
     /\ UNCHANGED <<start, end, prog, sn, now, first, slot, nxt, err, ev, direct, must, fbq, ran, mono, asked, twice, lostn, budget,
                    tcount, script>>
 
-Next == Configure \/ Bind \/ StartNode \/ Seed \/ Loop \/ SkipNode \/ EvalNode \/ FeedbackSinks \/ EndCycle
+Next == Configure \/ Parametrize \/ Bind \/ StartNode \/ Seed \/ Loop \/ SkipNode \/ EvalNode \/ FeedbackSinks \/ EndCycle
 Spec == Init /\ [][Next]_vars
 FairSpec == Spec /\ WF_vars(Next)
 
